@@ -93,3 +93,36 @@ class ForStep:
                 ex.oblige("%s:invariant-preserved:%s" % (self.name, nm), c)
             raise PathAbort("loop-step-verified")
         ex.exec_block(st.orelse, fr)
+
+
+# ---- roles of locals, read from the loop itself (a loop contract should survive a renamed local) --------------------
+def loop_node(repo, qualname, ordinal=0):
+    fi = repo.func(qualname)
+    loops = [n for n in ast.walk(fi.node) if isinstance(n, (ast.For, ast.While))]
+    loops.sort(key=lambda n: (n.lineno, n.col_offset))
+    return loops[ordinal]
+
+
+def stored_names(node):
+    """locals assigned inside the loop body, in source order"""
+    out = []
+    for n in ast.walk(node):
+        if isinstance(n, ast.Name) and isinstance(n.ctx, ast.Store) and n.id not in out:
+            out.append(n.id)
+    return out
+
+
+def test_names(node):
+    """locals read by the loop condition"""
+    return [n.id for n in ast.walk(node.test) if isinstance(n, ast.Name)] if isinstance(node, ast.While) else []
+
+
+def membership_names(node):
+    """locals on the right of `in` / `not in` inside the loop"""
+    out = []
+    for n in ast.walk(node):
+        if isinstance(n, ast.Compare):
+            for o, c in zip(n.ops, n.comparators):
+                if isinstance(o, (ast.In, ast.NotIn)) and isinstance(c, ast.Name) and c.id not in out:
+                    out.append(c.id)
+    return out
